@@ -132,6 +132,9 @@ fn check_bfs_pred<D: Order + OutNeighbors>(
     }
     check_tree(&format!("BfsPred<{name}> items"), &from_items, n, sources, &dist, &w)?;
 
+    let lazy = || sources.iter().copied().filter(|_| true);
+    let items_l: Vec<(Option<usize>, usize)> = BfsPred::new(g, lazy()).collect();
+    ensure!(items_l == items, "BfsPred<{name}>: sources passed through `filter` give {items_l:?}, passed directly {items:?}");
     let tree = BfsPred::new(g, sources.iter().copied()).predecessors();
     check_tree(&format!("BfsPred<{name}>::predecessors()"), &tree.pred, n, sources, &dist, &w)?;
 
@@ -332,6 +335,8 @@ impl Prop for C05 {
             from_items[v] = p;
         }
         check_tree("DijkstraPred items", &from_items, n, s, dist, &w)?;
+        let items_l: Vec<(Option<usize>, usize)> = DijkstraPred::new(&g, s.iter().copied().filter(|_| true)).collect();
+        ensure!(items_l == items, "DijkstraPred: sources passed through `filter` give {items_l:?}, passed directly {items:?}");
         let tree = DijkstraPred::new(&g, s.iter().copied()).predecessors();
         check_tree("DijkstraPred::predecessors()", &tree.pred, n, s, dist, &w)?;
         let path = DijkstraPred::new(&g, s.iter().copied()).shortest_path(|v| targets.contains(&v));
